@@ -253,6 +253,12 @@ class Ctx:
             self.result = self.fn(self)
         except Abort:
             self.done = True
+            if not w.aborted:
+                # this context ran into the horizon on its own (a single wait that crosses it): hand the baton
+                # back to the main thread, which aborts the others
+                w.cancel(w.main.resume_ev)
+                w.cur = w.main
+                w.main.lock.release()
             return
         except BaseException as e:  # noqa
             self.exc = e
